@@ -7,7 +7,10 @@ import (
 	"log"
 	"os"
 	"path/filepath"
+	"regexp"
+	"runtime"
 	"sort"
+	"strings"
 	"sync"
 	"time"
 
@@ -154,27 +157,83 @@ func shrink(seq *Sequence, typ, dir, sig string, budget int) (*Sequence, *Findin
 	return cur, best
 }
 
-const seqWatchdog = 180 * time.Second
+const seqWatchdog = 90 * time.Second
 
 var errWatchdog = fmt.Errorf("watchdog")
 
-// runWithWatchdog runs one sequence; an engine call that never returns (seen
-// with pebble's flush on unusual inputs) must not wedge the whole check.
-func runWithWatchdog(seq *Sequence, typ, dir string, st *Stats, maxFind int) ([]Finding, error) {
+type hangInfo struct {
+	deadlock bool
+	fn       string
+	state    string
+	stack    []string
+}
+
+var gidRe = regexp.MustCompile(`^goroutine (\d+) \[([^\]]*)\]`)
+
+func curGoroutine() string {
+	buf := make([]byte, 64)
+	buf = buf[:runtime.Stack(buf, false)]
+	if m := gidRe.FindSubmatch(buf); m != nil {
+		return string(m[1])
+	}
+	return ""
+}
+
+// inspectHang looks at the goroutine that executes a sequence after the
+// watchdog expired. The sequence goroutine is the only user of its engine
+// instance, so if it is parked acquiring a lock inside the engine packages no
+// other goroutine can ever release that lock: a deadlock, decided by the wait
+// state and not by the elapsed time. Anything else (running, I/O, waiting on a
+// channel of a background worker) stays inconclusive.
+func inspectHang(gid string) hangInfo {
+	buf := make([]byte, 4<<20)
+	buf = buf[:runtime.Stack(buf, true)]
+	for _, blk := range strings.Split(string(buf), "\n\n") {
+		m := gidRe.FindStringSubmatch(blk)
+		if m == nil || m[1] != gid {
+			continue
+		}
+		hi := hangInfo{state: m[2], stack: strings.Split(blk, "\n")}
+		if len(hi.stack) > 40 {
+			hi.stack = hi.stack[:40]
+		}
+		lockWait := strings.HasPrefix(m[2], "sync.Mutex.Lock") || strings.HasPrefix(m[2], "sync.RWMutex.") || strings.HasPrefix(m[2], "semacquire")
+		for _, l := range hi.stack {
+			if strings.HasPrefix(l, enginePkg+".") || strings.HasPrefix(l, enginePkg+"/radixdb.") {
+				if i := strings.LastIndex(l, "("); i > 0 {
+					l = l[:i]
+				}
+				hi.fn = strings.TrimPrefix(l, "github.com/youzan/ZanRedisDB/")
+				break
+			}
+		}
+		hi.deadlock = lockWait && hi.fn != ""
+		return hi
+	}
+	return hangInfo{}
+}
+
+// runWithWatchdog runs one sequence; an engine call that never returns must
+// not wedge the whole check.
+func runWithWatchdog(seq *Sequence, typ, dir string, st *Stats, maxFind int) ([]Finding, *hangInfo, error) {
 	type res struct {
 		fs  []Finding
 		err error
 	}
 	ch := make(chan res, 1)
+	gidc := make(chan string, 1)
 	go func() {
+		gidc <- curGoroutine()
 		fs, err := runSequence(seq, typ, dir, st, maxFind, nil)
 		ch <- res{fs, err}
 	}()
+	gid := <-gidc
 	select {
 	case r := <-ch:
-		return r.fs, r.err
+		return r.fs, nil, r.err
 	case <-time.After(seqWatchdog):
-		return nil, errWatchdog
+		hi := inspectHang(gid)
+		return nil, &hi, errWatchdog
 	}
 }
 
@@ -199,6 +258,7 @@ func runC20(c *vc.Ctx) error {
 		pending         []Witness
 	}
 	sigs := map[string]*sigState{}
+	deadlocks := map[string]int{}
 	findingsBySig := map[string]int64{}
 	var openErr error
 
@@ -207,9 +267,28 @@ func runC20(c *vc.Ctx) error {
 		st := newStats()
 		for _, typ := range engines {
 			est := newStats()
-			fs, err := runWithWatchdog(seq, typ, c.Scratch, est, 8)
+			mu.Lock()
+			wedged := deadlocks[typ] >= 3
+			mu.Unlock()
+			if wedged {
+				c.Inconclusive(fmt.Sprintf("sequence %d on %s skipped: this engine already deadlocked in 3 sequences", i, typ))
+				continue
+			}
+			fs, hi, err := runWithWatchdog(seq, typ, c.Scratch, est, 8)
 			if err == errWatchdog {
-				c.Inconclusive(fmt.Sprintf("sequence %d on %s hit the %v watchdog (engine call did not return)", i, typ, seqWatchdog))
+				if hi != nil && hi.deadlock {
+					mu.Lock()
+					deadlocks[typ]++
+					mu.Unlock()
+					c.Violation("deadlock/"+typ+"/"+hi.fn, fmt.Sprintf("%s: the goroutine executing sequence %d (the only user of its engine instance) is parked in %s [%s]: nobody can release that lock", typ, i, hi.fn, hi.state),
+						Witness{Kind: "sequence", Engine: typ, Sequence: seq, OrigLen: len(seq.Steps), Extra: map[string]interface{}{"goroutine_state": hi.state, "stack": hi.stack}})
+					continue
+				}
+				state := ""
+				if hi != nil {
+					state = hi.state
+				}
+				c.Inconclusive(fmt.Sprintf("sequence %d on %s hit the %v watchdog (goroutine state %q)", i, typ, seqWatchdog, state))
 				continue
 			}
 			if err != nil {
